@@ -30,6 +30,16 @@ MUTANTS = [
      "return jobs_.empty() && (busy_ == 0); });",
      "return busy_ == 0; });",
      "loop_until_empty does not look at the queue"),
+    ("c10_m5_bookkeeping_inside_try", "C10", "tlx/thread_pool.cpp",
+     [("                    job();\n                }",
+       "                    job();\n                    std::atomic_thread_fence(std::memory_order_seq_cst);\n"
+       "                    ++done_;\n                    --busy_;\n                }"),
+      ("            std::atomic_thread_fence(std::memory_order_seq_cst);\n\n            ++done_;\n            --busy_;\n", "")],
+     None, "seeded c10a-A: fence/++done_/--busy_ moved into the try block (skipped when a job throws)"),
+    ("c10_m6_terminate_notifies_only_if_all_idle", "C10", "tlx/thread_pool.cpp",
+     "    cv_finished_.notify_all();\n}",
+     "    if (idle_ == threads_.size())\n        cv_finished_.notify_all();\n}",
+     "seeded c10a-B: terminate() skips the cv_finished_ notification unless every worker is idle"),
     ("c11_m1_signal_n_notify_one", "C11", "tlx/semaphore.hpp",
      "        size_t res = (value_ += delta);\n        cv_.notify_all();",
      "        size_t res = (value_ += delta);\n        cv_.notify_one();",
@@ -64,11 +74,13 @@ def main():
         shutil.copytree(os.path.join(repo, "tlx"), os.path.join(dst, "tlx"))
         p = os.path.join(dst, rel)
         src = open(p).read()
-        n = src.count(old)
-        if n == 0:
+        pairs = old if isinstance(old, list) else [(old, new)]
+        if any(src.count(o) == 0 for o, _ in pairs):
             results.append((name, "PATTERN-NOT-FOUND", ""))
             continue
-        open(p, "w").write(src.replace(old, new))
+        for o, n_ in pairs:
+            src = src.replace(o, n_)
+        open(p, "w").write(src)
         env = dict(os.environ, TLX_REPO=dst)
         r = subprocess.run([sys.executable, os.path.join(VERIF, "check.py"), pid, "--tier", "quick"],
                            capture_output=True, text=True, env=env, cwd=VERIF)
